@@ -292,6 +292,14 @@ def nx5(F, R):
                                 strip_sites(strip_load(x.args[2])) == strip_sites(idx) and \
                                 strip_sites(unload(x.args[1])) == strip_sites(unload(miss[2][1])) and e.body.cooccur(e.site, x.site):
                             ok = True
+                        # ... or stored with `vars.entry(name).or_insert(id)` on that same miss
+                        if x.kind == "call" and x.name == "or_insert" and x.body is e.body and len(x.args) == 2 and \
+                                strip_sites(strip_load(x.args[1])) == strip_sites(idx) and e.body.cooccur(e.site, x.site):
+                            ent = strip_load(x.args[0])
+                            if ent[0] == "call" and ent[1].split("::")[-1] == "entry" and strip_load(ent[2][0])[0] == "field" and \
+                                    strip_load(ent[2][0])[2] == "Script::vars" and \
+                                    strip_sites(unload(ent[2][1])) == strip_sites(unload(strip_load(deref_addr(e.body, miss[2][1])))):
+                                ok = True
             if ok:
                 R.ok("NX5", e.where(), "script: next_id() only as the default of vars.entry(name): one id per variable name")
             else:
